@@ -275,4 +275,21 @@ def chainsOkL : List Expr → Bool
   | e :: es => chainsOk e && chainsOkL es
 end
 
+/-! ### `Malt.Sem` expressions: the fragment without comparison chains and starred arguments -/
+mutual
+def ofSem : Malt.Sem.Expr → Expr
+  | .const v => .const v
+  | .var x => .var x
+  | .not e => .not (ofSem e)
+  | .and a b => .and (ofSem a) (ofSem b)
+  | .or a b => .or (ofSem a) (ofSem b)
+  | .ite c t e => .ite (ofSem c) (ofSem t) (ofSem e)
+  | .bin op a b => .bin op (ofSem a) (ofSem b)
+  | .call f args => .call f (ofSemL args)
+def ofSemL : List Malt.Sem.Expr → List Expr
+  | [] => []
+  | e :: es => ofSem e :: ofSemL es
+end
+
+
 end Malt.SemW
